@@ -11,6 +11,7 @@ pub fn run(a: &Args) {
     let n_stoppers = a.usize("stoppers");
     let status0 = a.u64("status0") as u8;
     let schedule: Vec<(usize, String)> = a.labelled_schedule("schedule");
+    let serialized: Vec<usize> = a.list_u128("serialized").into_iter().map(|x| x as usize).collect();
     let threads = n_senders + n_drainers + n_stoppers;
     let mut det = mbx::detached(status0);
     let h = det.handle();
@@ -18,12 +19,13 @@ pub fn run(a: &Args) {
     let mut joins = Vec::new();
     for i in 0..n_senders {
         let h = h.clone();
+        let ser = serialized.contains(&i);
         joins.push(std::thread::spawn(move || {
             vh::enter_thread(i);
             let mut res = Vec::new();
             for j in 0..n_msgs {
                 let ident = (1 + i * 4 + j) as u64;
-                res.push(h.send(ident) as u64);
+                res.push(if ser { h.send_serialized(ident) } else { h.send(ident) } as u64);
             }
             vh::leave_thread();
             res
